@@ -80,6 +80,39 @@ pub fn chain(depth: usize, fanin: usize, form0: usize, void_every: usize) -> Cas
     Case { family: format!("chain(depth={depth},fanin={fanin},form={form0},void_every={void_every})"), items: depth + 1, depth, wgsl: s }
 }
 
+/// helpers that receive a texture and a sampler (kind 0), a pointer to a function-scope variable
+/// (kind 1) or both (kind 2) as parameters and hand them on; f_i calls f_{i-1} `fanin` times
+pub fn chain_params(depth: usize, fanin: usize, kind: usize) -> Case {
+    let mut s = header();
+    s.push_str("@group(0) @binding(1) var tex: texture_2d<f32>;\n@group(0) @binding(2) var smp: sampler;\n");
+    let (params, args) = match kind % 3 {
+        0 => ("t: texture_2d<f32>, s: sampler, x: f32", "t, s, "),
+        1 => ("p: ptr<function, f32>, x: f32", "p, "),
+        _ => ("t: texture_2d<f32>, s: sampler, p: ptr<function, f32>, x: f32", "t, s, p, "),
+    };
+    let leaf = match kind % 3 {
+        0 => "return x + textureSampleLevel(t, s, vec2<f32>(x, x), 0.0).x + data[0];",
+        1 => "*p = *p + x; return *p + data[0];",
+        _ => "*p = *p + textureSampleLevel(t, s, vec2<f32>(x, x), 0.0).x; return *p + data[0];",
+    };
+    writeln!(s, "fn f_0({params}) -> f32 {{ {leaf} }}").unwrap();
+    for i in 1..=depth {
+        let mut body = String::new();
+        for k in 0..fanin {
+            let callee = format!("f_{}", i - 1);
+            body.push_str(&call(i + k, &callee).replace(&format!("{callee}("), &format!("{callee}({args}")));
+        }
+        writeln!(s, "fn f_{i}({params}) -> f32 {{\n    var acc: f32 = x;\n{body}    return acc;\n}}").unwrap();
+    }
+    let top_args = match kind % 3 {
+        0 => "tex, smp, ",
+        1 => "&loc, ",
+        _ => "tex, smp, &loc, ",
+    };
+    writeln!(s, "@fragment\nfn main() -> @location(0) vec4<f32> {{\n    var acc: f32 = 1.0;\n    var loc: f32 = 0.0;\n    acc = acc + f_{depth}({top_args}acc);\n    return vec4<f32>(acc);\n}}").unwrap();
+    Case { family: format!("chain_params(depth={depth},fanin={fanin},kind={})", ["texture+sampler", "pointer", "texture+sampler+pointer"][kind % 3]), items: depth + 1, depth, wgsl: s }
+}
+
 /// the same helper graph shared by entry points of all three stages (and two of one stage)
 pub fn shared(base: Case, top_call: &str) -> Case {
     // strip the single entry point of `base` and add four
@@ -202,6 +235,12 @@ pub fn random_dag(ch: &mut Ch) -> Case {
     // locality: callees are drawn from the `window` previous functions, so depth grows with n/window
     let window = ch.usize_range(1, 12);
     let mut s = header();
+    // several resources, each touched by few helpers: which of them an entry point reaches depends on
+    // the whole traversal (matters to the properties that reuse these graphs, not to the cost)
+    let nres = ch.usize_range(0, 7);
+    for r in 0..nres {
+        writeln!(s, "@group(0) @binding({}) var<storage, read_write> data{r}: array<f32>;", r + 1).unwrap();
+    }
     let mut is_void = vec![false; n];
     let mut depth = vec![0usize; n];
     for i in 0..n {
@@ -209,7 +248,11 @@ pub fn random_dag(ch: &mut Ch) -> Case {
         is_void[i] = void;
         let mut body = String::new();
         if i == 0 || ch.chance(1, 6) {
-            writeln!(body, "    acc = acc + data[{i}];").unwrap();
+            if nres > 0 && ch.chance(3, 4) {
+                writeln!(body, "    acc = acc + data{}[{i}];", ch.idx(nres)).unwrap();
+            } else {
+                writeln!(body, "    acc = acc + data[{i}];").unwrap();
+            }
         }
         if i > 0 {
             let k = ch.usize_range(1, maxk);
@@ -255,6 +298,12 @@ pub fn family_members(tier: Tier) -> Vec<Case> {
         for d in [16usize, 48] {
             v.push(chain_uniform(d, form));
         }
+    }
+    for kind in 0..3 {
+        for d in [8usize, 24, 48] {
+            v.push(chain_params(d, 2, kind));
+        }
+        v.push(chain_params(32, 1, kind));
     }
     for d in [8usize, 16, 32, 64] {
         v.push(shared(chain(d, 1, 0, 0), &format!("acc = acc + f_{d}(acc);")));
@@ -399,7 +448,7 @@ pub fn run(_sut: &dyn Sut, tier: Tier) -> ! {
     }
     // random DAGs (parallel over 8 threads; each worker child is single-threaded)
     let n = tier.pick(400, 4000);
-    let (_r, mut sampled) = sample(run.seed_for(1), n, (64, 1400));
+    let (_r, mut sampled) = sample(run.seed_for(1), n, (64, 3000));
     let cases: Vec<Case> = sampled
         .trees
         .iter()
